@@ -163,7 +163,7 @@ def gen_object_spec(rng, kind, ndim=None, with_subs=True, units=True):
         ms = fieldio.gen_mesh_spec(rng, ndim=ndim)
         spec = dict(kind="region", p1=ms["p1"], p2=ms["p2"], dims=ms["dims"])
     else:
-        ms = fieldio.gen_mesh_spec(rng, ndim=ndim, max_cells=60, nmax=5)
+        ms = fieldio.gen_mesh_spec(rng, ndim=ndim, max_cells=60, nmax=5, bc_prob=0.4)
         spec = dict(kind=kind, mesh=ms)
         if with_subs and rng.random() < 0.7:
             spec["subs"] = gen_subs(rng, ms, rng.randint(1, 3))
